@@ -192,6 +192,67 @@ impl World {
     }
 }
 
+/// operations that only need cloneable handles: usable from the main thread and from spawned threads
+fn simple_op(db: &Database, ks: &HashMap<String, Keyspace>, t: &[&str]) -> Option<String> {
+    let a = &t[1..];
+    let k = |n: &str| ks.get(n);
+    Some(match t[0] {
+        "insert" => match k(a[0]) {
+            Some(k) => res(&k.insert(unhex(a[1]), unhex(a[2]))),
+            None => "err:NoKs".into(),
+        },
+        "remove" => match k(a[0]) {
+            Some(k) => res(&k.remove(unhex(a[1]))),
+            None => "err:NoKs".into(),
+        },
+        "remove_weak" => match k(a[0]) {
+            Some(k) => res(&k.remove_weak(unhex(a[1]))),
+            None => "err:NoKs".into(),
+        },
+        "clear" => match k(a[0]) {
+            Some(k) => res(&k.clear()),
+            None => "err:NoKs".into(),
+        },
+        "batch1" => match k(a[0]) {
+            Some(k) => {
+                let mut b = db.batch();
+                b.insert(k, unhex(a[1]), unhex(a[2]));
+                res(&b.commit())
+            }
+            None => "err:NoKs".into(),
+        },
+        "batch2" => match (k(a[0]), k(a[3])) {
+            (Some(k1), Some(k2)) => {
+                let mut b = db.batch();
+                b.insert(k1, unhex(a[1]), unhex(a[2]));
+                b.insert(k2, unhex(a[4]), unhex(a[5]));
+                res(&b.commit())
+            }
+            _ => "err:NoKs".into(),
+        },
+        "persist" => res(&db.persist(persist_mode(a[0]))),
+        "get" => match k(a[0]) {
+            Some(k) => match k.get(unhex(a[1])) {
+                Ok(Some(v)) => format!("some:{}", hex(&v)),
+                Ok(None) => "none".into(),
+                Err(e) => format!("err:{}", errname(&e)),
+            },
+            None => "err:NoKs".into(),
+        },
+        "snapget2" => match (k(a[0]), k(a[2])) {
+            // snapshot; get k1 from ks1; get k2 from ks2  (one snapshot, two reads)
+            (Some(k1), Some(k2)) => {
+                let s = db.snapshot();
+                let r1 = s.get(k1, unhex(a[1])).map(|o| o.map(|v| hex(&v)));
+                let r2 = s.get(k2, unhex(a[3])).map(|o| o.map(|v| hex(&v)));
+                format!("{:?}|{:?}", r1.ok().flatten(), r2.ok().flatten())
+            }
+            _ => "err:NoKs".into(),
+        },
+        _ => return None,
+    })
+}
+
 fn main() {
     let path = std::env::args().nth(1).expect("scenario file");
     let text = std::fs::read_to_string(&path).expect("read scenario");
@@ -206,6 +267,7 @@ fn main() {
         batches: HashMap::new(),
         otx: HashMap::new(),
     };
+    let mut threads: HashMap<String, std::thread::JoinHandle<String>> = HashMap::new();
     for (ln, line) in text.lines().enumerate() {
         let line = line.trim();
         if line.is_empty() || line.starts_with('#') {
@@ -309,6 +371,39 @@ fn main() {
                 let n = fjall::verif::faults_fired();
                 fjall::verif::disarm_fault();
                 format!("ok fired={n}")
+            }
+            "spawn" => {
+                let tid = a[0].to_string();
+                let cmd: Vec<String> = a[1..].iter().map(|x| (*x).to_string()).collect();
+                let db = w.db.as_ref().expect("db").inner().clone();
+                let ks: HashMap<String, Keyspace> = w.ks.iter().map(|(n, k)| (n.clone(), k.inner().clone())).collect();
+                let h = std::thread::spawn(move || {
+                    fjall::verif::set_thread_pausable(true);
+                    let t: Vec<&str> = cmd.iter().map(String::as_str).collect();
+                    simple_op(&db, &ks, &t).unwrap_or_else(|| "err:NotSpawnable".into())
+                });
+                threads.insert(tid, h);
+                "ok".into()
+            }
+            "join" => match threads.remove(a[0]) {
+                Some(h) => h.join().unwrap_or_else(|_| "err:ThreadPanicked".into()),
+                None => "err:NoThread".into(),
+            },
+            "arm_pause" => {
+                fjall::verif::arm_pause(a[0]);
+                "ok".into()
+            }
+            "wait_parked" => {
+                let ms: u64 = a.get(1).map(|x| x.parse().expect("ms")).unwrap_or(5000);
+                if fjall::verif::wait_parked(a[0], ms) {
+                    "ok".into()
+                } else {
+                    "err:NotParked".into()
+                }
+            }
+            "release" => {
+                fjall::verif::release_pause(a[0]);
+                "ok".into()
             }
             "snapshot" => {
                 let s = w.db.as_ref().expect("db").inner().snapshot();
